@@ -506,7 +506,7 @@ for _t, _text in CONTENT.items():
     for _pos in content_positions(_text):
         for _api in ('edit_file', 'edit_file_recursive'):
             quick = (_t, _pos) in QUICK_CONTENT and _api == 'edit_file'
-            _reg(make_content(_t, _pos, _api), {'C16': Q if quick else T}, 600 if quick else 3000, 'content',
+            _reg(make_content(_t, _pos, _api), {'C16': Q if quick else T}, 600 if quick else 1500, 'content',
                  'file text %r with 1 symbolic code point (full Unicode without surrogates) inserted at offset %d, read/parsed/edited/printed/written through %s'
                  % (_text, _pos, _api), cost=300)
 _reg(make_content('lf', 10, 'edit_file', twin=True), {'C16': Q}, 300, 'content', 'vacuity twin', twin=True, cost=5)
@@ -520,7 +520,7 @@ STUBS = ['file system = symx.fsenv.ModelFS (regular files and directories, no sy
          'contract; validated against a real directory on every run (198 observations) and every counterexample is replayed on a real temporary directory',
          'modification time = a per-file counter bumped whenever the file is opened for writing (replay: mtime_ns against a fixed old timestamp)',
          'lark Scanner.match / PostLex split regex interpreted by symx.symre in content cells (validated against re at every run)']
-OUTSIDE = ['symbolic links, permissions, non-UTF-8 files, concurrent writers, failures of write() itself (disk full) and partial writes; include patterns that are absolute paths; '
+OUTSIDE = ['content cells whose free character extends an account name (end of ) explore > 2300 lexer paths and stay inconclusive within 1500 s (reported as such); symbolic links, permissions, non-UTF-8 files, concurrent writers, failures of write() itself (disk full) and partial writes; include patterns that are absolute paths; '
            'more than one free character in a file; include graphs other than the 10 listed; more than one entry removed or added per block']
 
 
